@@ -105,7 +105,13 @@ def parse_criteria(criteria):
     if op:
         val = to_number(val)
         op = OPERATOR_DICT[op]
-        return lambda a: op(a, val)
+
+        def compare(a):
+            try:
+                return op(a, val)
+            except TypeError:
+                return False  # e.g. a text or blank cell under a numeric ordering criterion does not satisfy it
+        return compare
     else:
         if any(c in val for c in ('?', '*')):
             # Then use fnmatch
